@@ -10,7 +10,10 @@ CFG = {"quick": ["MC_Graph_q1.cfg", "MC_Graph_q2.cfg", "MC_Graph_q3.cfg", "MC_Gr
 
 
 def input_key(case):
-    return sha(json.dumps(case["input"], sort_keys=True))
+    """the input SET: the order in which the modules are listed / added is not part of it"""
+    inp = dict(case["input"])
+    inp["mods"] = sorted(inp["mods"], key=lambda m: m["path"])
+    return sha(json.dumps(inp, sort_keys=True))
 
 
 def outcome_sig(obs):
@@ -241,7 +244,7 @@ def run_graph(pid, tier):
     if pid == "C09":
         n_checked += c09_groups(pl, res, groups, tier, cov, "graph")
         # a second input family: ambiguous names (several definitions of one short name in scope)
-        pl2 = Pipeline(tier, module="MC_Scope", cfgs={"quick": ["MC_Scope_q2.cfg"], "thorough": ["MC_Scope_q1.cfg", "MC_Scope_q2.cfg"]},
+        pl2 = Pipeline(tier, module="MC_Scope", cfgs={"quick": ["MC_Scope_q2.cfg", "MC_Scope_q3.cfg"], "thorough": ["MC_Scope_q1.cfg", "MC_Scope_q2.cfg"]},
                        name="graph2", replay_flags=["--emit-dir", os.path.join(WORK, "run", f"graph2-{tier}", "emit"), "--sched"])
         groups2 = collections.defaultdict(list)
         for case, obs in pl2.pairs():
